@@ -1519,9 +1519,9 @@ def msvcrt__wcsnicmp(jitter):
 def msvcrt_wcsncpy(jitter):
     ret_ad, args = jitter.func_args_cdecl(["dst", "src", "n"])
     src = get_win_str_w(jitter, args.src)
-    dst = src[:args.n]
-    jitter.vm.set_mem(args.dst, b"\x00\x00" * args.n)
-    jitter.vm.set_mem(args.dst, dst.encode("utf-16le"))
+    # @n is a number of wchar_t (UTF-16 code units), zero padded
+    dst = src.encode("utf-16le")[:2 * args.n]
+    jitter.vm.set_mem(args.dst, dst + b"\x00" * (2 * args.n - len(dst)))
     jitter.func_ret_cdecl(ret_ad, args.dst)
 
 def kernel32_lstrcmpA(jitter):
